@@ -54,6 +54,9 @@ def _unmarshaller(
     if not nodes:
         return routines.NoOpUnmarshaller(t=t, context=context, var=None)  # type: ignore[arg-type]
 
+    # Members typed `Any` (or a free `TypeVar`) get no node of their own in the
+    #   graph, but container routines still look them up: they pass through.
+    context[tp.Any] = routines.NoOpUnmarshaller(tp.Any, context)  # type: ignore[arg-type]
     # "root" type will always be the final node in the sequence.
     root = nodes[-1]
     for node in nodes:
